@@ -5,7 +5,9 @@
      stage/expand.go     addSingleFile as far as it decides membership, type and link target
    over an abstract build root (a list of paths with their kind).  path/filepath.Glob and
    filepath.Match are modelled (not verified) for patterns whose only metacharacters are
-   "*" and "\c"; everything else sets the out-of-domain flag.  src= is not modelled here.
+   "*" and "\c"; everything else sets the out-of-domain flag.  Of src= only the WILDCARD form below
+   the build root ("$$stageroot/<dir>/<pattern>", round 6: add_src_wild) is modelled here; any other
+   src= line sets the out-of-domain flag.
    Executable definitions only. *)
 From LC Require Import Lib.Bytes Lib.Lex Lib.Fields Lib.PathM Gen.Consts Model.StageLine.
 Open Scope N_scope.
